@@ -74,13 +74,53 @@ def sh(cmd, cwd=None, timeout=None, mem_kb=MEM_KB, stdin=None):
         import resource
         if mem_kb:
             resource.setrlimit(resource.RLIMIT_AS, (mem_kb * 1024, mem_kb * 1024))
+    # the child gets its own process group so that a time-out (or our own death) takes its children (solvers) with it
+    p = subprocess.Popen(cmd, cwd=cwd, stdout=subprocess.PIPE, stderr=subprocess.PIPE, stdin=subprocess.PIPE if stdin is not None else None,
+                         text=True, preexec_fn=lim, start_new_session=True)
+    _LIVE.add(p.pid)
     try:
-        p = subprocess.run(cmd, cwd=cwd, capture_output=True, text=True, timeout=timeout,
-                           preexec_fn=lim, input=stdin)
-        return p.returncode, p.stdout, p.stderr, time.time() - t0
-    except subprocess.TimeoutExpired as e:
-        out = e.stdout.decode() if isinstance(e.stdout, bytes) else (e.stdout or '')
-        return -9, out, 'TIMEOUT after %ss' % timeout, time.time() - t0
+        out, err = p.communicate(input=stdin, timeout=timeout)
+        return p.returncode, out, err, time.time() - t0
+    except subprocess.TimeoutExpired:
+        _killpg(p.pid)
+        try:
+            out, err = p.communicate(timeout=10)
+        except Exception:
+            out, err = '', ''
+        return -9, out or '', 'TIMEOUT after %ss' % timeout, time.time() - t0
+    finally:
+        _LIVE.discard(p.pid)
+
+
+_LIVE = set()
+
+
+def _killpg(pid):
+    import signal
+    # SIGTERM first: a worker of ours forwards it to its own children (install_cleanup), then SIGKILL
+    for sig, wait in ((signal.SIGTERM, 0.4), (signal.SIGKILL, 0)):
+        try:
+            os.killpg(pid, sig)
+        except (ProcessLookupError, PermissionError):
+            return
+        time.sleep(wait)
+
+
+def _kill_all_children(*_a):
+    for pid in list(_LIVE):
+        _killpg(pid)
+
+
+def install_cleanup():
+    """kill every running child process group when this process is terminated or exits"""
+    import atexit
+    import signal
+    atexit.register(_kill_all_children)
+    for sig in (signal.SIGTERM, signal.SIGINT, signal.SIGHUP):
+        try:
+            signal.signal(sig, lambda s, f: (_kill_all_children(), os._exit(130)))
+        except (ValueError, OSError):
+            pass
 
 
 class Workdir:
